@@ -4,7 +4,7 @@ EXTENDS Collect
 
 Doc(kind, q, opn, cls, lead, nblk, inlead, nsrc, nwant) ==
   [kind |-> kind, q |-> q, opn |-> opn, cls |-> cls, lead |-> lead, nblk |-> nblk, inlead |-> inlead, nsrc |-> nsrc, nwant |-> nwant]
-It(k, depth, deco, nd, sig2, gap, doc) == [k |-> k, depth |-> depth, deco |-> deco, nd |-> nd, sig2 |-> sig2, gap |-> gap, doc |-> doc]
+It(k, depth, deco, nd, sig2, gap, doc) == [k |-> k, depth |-> depth, deco |-> deco, nd |-> nd, sig2 |-> sig2, gap |-> gap, doc |-> doc, nm |-> 0]
 
 Free1 == Doc("free", "d3", "own", "own", 1, 1, 0, 1, 1)
 Free2 == Doc("free", "s3", "shared", "own", 0, 2, 0, 1, 1)
